@@ -286,7 +286,30 @@ def check(ctx):
             n2 = lib.tail(mir.fn_name(fr), 2)
             if n2 in T.PANICKING_LOOKUPS or n2 in T.UNWRAPS:
                 ctx.fail("C06.d", "%s:%s" % (fk, n2), f.loc(b), "panicking lookup on the revoke path (revoking a dead reactor or twice must change nothing)")
+        # a panic *behind* a removal (an assertion about what was just removed) is not on the path of a revoke that finds
+        # nothing: revoking twice / a dead reactor never reaches a removal
+        rem_blocks = [b for b, t, fr in f.iter_calls() if fr and lib.tail(mir.fn_name(fr), 2) in
+                      ("Vec::remove", "SmallVec::remove", "HashMap::remove", "VecDeque::remove")]
+        # `debug_assert!(list.is_empty())` on the arm where the same list was just found empty: implied, cannot fail
+        implied = set()
+        def _src(body, t3):
+            s_ = LP.coll_source(body, t3["args"][0])
+            return repr(s_) if s_ else None
+        heads_e = emptiness_heads(f, _src)
+        for cb_, t_, fr_ in f.iter_calls():
+            if fr_ and lib.tail(mir.fn_name(fr_), 1) == "is_empty" and t_["args"]:
+                tag_ = _src(f, t_)
+                if tag_ is None or not any(tg == tag_ and f.dominates(h_, cb_) for (h_, tg) in heads_e):
+                    continue
+                for (sb_, tt_, ft_) in lib.bool_arms(f, cb_):
+                    implied |= {d_ for d_ in f.diverging_blocks() if f.dominates(ft_, d_)}
         for b in f.diverging_blocks():
+            if b in implied:
+                ctx.ok("C06.d", "%s:no-panic-arm" % fk, f.loc(b), "assertion implied by the dominating emptiness test of the same list")
+                continue
+            if any(rb != b and f.dominates(rb, b) for rb in rem_blocks):
+                ctx.ok("C06.d", "%s:no-panic-arm" % fk, f.loc(b), "assertion behind a removal: not reachable by a revoke that finds nothing")
+                continue
             t = f.blocks[b]["term"]
             exp = t.get("exp") or ""
             # allowed: unreachable!() on the Event arm of revoke_component_reactor, provided no caller passes Event
